@@ -39,6 +39,10 @@ const CHARS: &[&str] = &[
     "\u{301}",
     "\u{202e}",
     "\u{fffd}",
+    // compatibility letters whose lower-case form has another UTF-8 length (OHM SIGN, KELVIN SIGN, dotted capital I)
+    "\u{2126}",
+    "\u{212a}",
+    "\u{130}",
     "\u{10ffff}",
     "\u{85}",
     "\u{2028}",
